@@ -406,6 +406,8 @@ type IsoCase struct {
 	Readers int   `json:"readers"`
 	Order   []int `json:"order"` // release order of the goroutines parked inside their first handler
 	Settle  int   `json:"settle_us"`
+	// ReadOnly: the readers open their transactions with Mode TransactionReadOnly (isolation holds for every mode)
+	ReadOnly bool `json:"readonly,omitempty"`
 }
 
 // checkIsolation: every writer sets k1 and k2 to its own value inside one transaction, parking inside the handler
@@ -443,7 +445,11 @@ func checkIsolation(c IsoCase) (string, string) {
 		wg.Add(1)
 		go func() {
 			defer wg.Done()
-			txn, err := st.Transaction(keyvalue.TransactionOptions{Mode: keyvalue.TransactionReadWrite})
+			mode := keyvalue.TransactionReadWrite
+			if i >= c.Writers && c.ReadOnly {
+				mode = keyvalue.TransactionReadOnly
+			}
+			txn, err := st.Transaction(keyvalue.TransactionOptions{Mode: mode})
 			if err != nil {
 				return
 			}
@@ -513,7 +519,7 @@ func checkIsolation(c IsoCase) (string, string) {
 
 func TestIsolation(t *testing.T) {
 	vf.Check(t, "isolation", func(rt *rapid.T, rec *vf.Rec) {
-		c := IsoCase{Writers: rapid.IntRange(1, 3).Draw(rt, "writers"), Readers: rapid.IntRange(1, 3).Draw(rt, "readers"), Settle: rapid.IntRange(0, 300).Draw(rt, "settle")}
+		c := IsoCase{Writers: rapid.IntRange(1, 3).Draw(rt, "writers"), Readers: rapid.IntRange(1, 3).Draw(rt, "readers"), Settle: rapid.IntRange(0, 300).Draw(rt, "settle"), ReadOnly: rapid.Bool().Draw(rt, "readonly")}
 		rec.Step(c)
 		rec.NonTrivial()
 		if sig, msg := checkIsolation(c); sig != "" {
